@@ -2,7 +2,7 @@
    Property theorems only (proved in P_Slice.v) about the model functions of M_Slice.v that the
    correspondence (harness/c04.py) evaluates on real stacks. *)
 From Coq Require Import ZArith String.
-Require Import Base M_Slice P_Slice.
+Require Import Base M_Slice P_Slice P_PySlice.
 
 (* wf w = all frames are pairwise distinct objects (nothing else).
    For every world (= every segmentation of the running stack into nested greenlets, any frames
@@ -86,3 +86,27 @@ Theorem C04_hypotheses_satisfiable :
 Proof. exact w_ex_ok. Qed.
 Print Assumptions C04_hypotheses_satisfiable.
 
+
+(* python slicing: the index arithmetic of M_Slice.py_slice (PySlice_AdjustIndices, slice length,
+   copy loop) equals the direct recursive definition py_slice_spec -- bounds counted from the end
+   if negative, cut to the list, then every |step|-th element of the (reversed, for a negative
+   step) segment -- for all lists, all start/stop in {None} + Z and every step *)
+Theorem C04_py_slice_correct : forall (l : list nat) (a b : option Z) (step : Z),
+  py_slice l a b step = py_slice_spec l a b step.
+Proof. exact (@py_slice_correct nat). Qed.
+Print Assumptions C04_py_slice_correct.
+
+(* the step the code uses: l[a:b:-1] is the reversed segment between the normalised bounds *)
+Theorem C04_py_slice_step_m1 : forall (l : list nat) a b,
+  py_slice l a b (-1) =
+  rev (skipn (Z.to_nat (match b with None => (-1)%Z | Some v => norm_bwd (Z.of_nat (length l)) v end + 1))
+             (firstn (Z.to_nat (match a with None => (Z.of_nat (length l) - 1)%Z | Some v => norm_bwd (Z.of_nat (length l)) v end + 1)) l)).
+Proof. exact (@py_slice_step_m1 nat). Qed.
+Print Assumptions C04_py_slice_step_m1.
+
+Theorem C04_py_slice_examples :
+  py_slice_spec [0;1;2;3;4;5;6] (Some (-2)%Z) (Some (-100)%Z) (-2) = [5; 3; 1]
+  /\ py_slice_spec [0;1;2;3;4;5;6] (Some 1%Z) None 3 = [1; 4]
+  /\ py_slice_spec [0;1;2;3;4;5;6] None (Some 2%Z) (-1) = [6; 5; 4; 3].
+Proof. exact py_slice_spec_examples. Qed.
+Print Assumptions C04_py_slice_examples.
